@@ -758,6 +758,10 @@ class QueryObjectDescriptor(CanBehaveLikeAVariable[T], ABC):
         for selected_variable in self._variables_inferred_for_this_evaluation_:
             selected_variable._is_inferred_ = False
         self._variables_inferred_for_this_evaluation_ = []
+        # a selected variable that occurs in no condition is not below this node in the graph.
+        for selected_variable in self.selected_variables:
+            for variable in selected_variable._all_variable_instances_:
+                variable._reset_only_my_cache_()
 
     def __repr__(self):
         return self._name_
@@ -899,6 +903,11 @@ class Variable(CanBehaveLikeAVariable[T]):
     An expression of the constraints added from the keyword arguments of the variable.
     """
     _evaluating_kwargs_expression_: bool = field(default=False, init=False)
+    _domain_is_the_registry_: bool = field(default=False, init=False)
+    """
+    Whether the current domain was taken from the registry of instances (no domain was given): it is taken anew by every
+    evaluation.
+    """
     """
     A flag indicating that the kwargs expression is currently being evaluated so do not evaluate them again, and instead
     yield from the domain.
@@ -992,10 +1001,20 @@ class Variable(CanBehaveLikeAVariable[T]):
             # also when the evaluation is abandoned here: the flag says that the kwargs expression is being evaluated.
             self._evaluating_kwargs_expression_ = False
 
+    def _reset_only_my_cache_(self) -> None:
+        super()._reset_only_my_cache_()
+        if self._domain_is_the_registry_:
+            # a variable without a domain ranges over the instances that exist when it is evaluated, not over those that
+            # existed when it was evaluated first.
+            self._domain_source_ = None
+            self._domain_ = HashedIterable()
+            self._domain_is_the_registry_ = False
+
     def _update_domain_and_kwargs_expression_(self):
         self._domain_source_ = From(self._cache_values_)
+        self._domain_is_the_registry_ = True
         self._update_domain_(self._domain_source_.domain)
-        if self._kwargs_:
+        if self._kwargs_ and self._kwargs_expression_ is None:
             parents = [p for p in self._node_.parents]
             self._kwargs_expression_, attributes = properties_to_expression_tree(self, self._child_vars_)
             self._kwargs_expression_ = An(Entity(self._kwargs_expression_, [self]))
